@@ -20,13 +20,15 @@ static std::vector<Lim> limits() {
         {"dimension_entry", 255, {127, 128, 254, 255, 256, 1000}}, {"empty_string_count", 255, {127, 128, 254, 255, 256, 300}}, {"dimension_after_empty", 255, {127, 128, 254, 255, 256, 300}}, {"string_length", 255, {127, 128, 254, 255, 256, 1000}}, {"string_count", 255, {127, 128, 254, 255, 256, 1000}},
         {"points", 255, {127, 128, 254, 255, 256, 300}}, {"channels", 255, {127, 128, 254, 255, 256, 300}}, {"frames", 32767, {32766, 32767, 32768, 70000}},
         {"int_max", 32767, {32766, 32767, 32768, 100000}}, {"int_min", -32768, {-32767, -32768, -32769, -100000}}, {"param_blocks", 255, {127, 128, 254, 255, 256, 300}}, {"record_offset", 65535, {32767, 32768, 65534, 65535, 65536, 262144}},
+        // bytes of the parameter section up to (not including) its one-byte terminator: 255 blocks hold 255*512-1 of them (byte-exact, where param_blocks moves in steps of a whole record)
+        {"param_section_bytes", 130559, {130558, 130559, 130560, 131200}},
     };
 }
 static std::string levelClass(const Lim& l, long v) { long a = std::labs(v), b = std::labs(l.L); return a + 1 == b ? "L-1" : a < b ? "inside" : a == b ? "L" : (a == b + 1 ? "L+1" : "beyond"); }
 static bool within(const Lim& l, long v) { return std::labs(v) <= std::labs(l.L); }
 
 // applies one (dimension, value) to the object under construction; returns false if not constructible
-struct Build { C3D c; long nPoints = 1, nChans = 0, nFrames = 1, wantBlocks = 0; std::string c10; };
+struct Build { C3D c; long nPoints = 1, nChans = 0, nFrames = 1, wantBlocks = 0, wantSection = 0; std::string c10; };
 static void applyLimit(Build& b, const std::string& dim, long v) {
     if (dim == "param_description") { Param p("DESCR", std::string((size_t)v, 'x')); p.set(3); b.c.parameter("LIMITS", p); }
     else if (dim == "param_name") { Param p(std::string((size_t)v, 'N')); p.set(4); b.c.parameter("LIMITS", p); }
@@ -38,6 +40,7 @@ static void applyLimit(Build& b, const std::string& dim, long v) {
     else if (dim == "string_count") { Param p("MANYSTR"); std::vector<std::string> s; for (long i = 0; i < v; ++i) s.push_back("s" + std::to_string(i)); p.set(s); b.c.parameter("LIMITS", p); }
     else if (dim == "points") b.nPoints = v; else if (dim == "channels") b.nChans = v; else if (dim == "frames" || dim == "last_frame") b.nFrames = v;
     else if (dim == "int_max" || dim == "int_min") { Param p(dim == "int_max" ? "BIGINT" : "SMALLINT"); p.set(std::vector<int>() = {(int)v, 1}); b.c.parameter("LIMITS", p); }
+    else if (dim == "param_section_bytes") b.wantSection = v;
     else if (dim == "param_blocks") b.wantBlocks = v;   // filled adaptively in finishAndCheck (the section length is only known from a save)
     else if (dim == "record_offset") {   // value of the record's 16-bit next-record offset = 5 + #dims + data bytes
         Param p("HUGE");
@@ -51,7 +54,7 @@ static void applyLimit(Build& b, const std::string& dim, long v) {
     }
 }
 static size_t paramBlocksOf(const C3D& c, const std::string& dir) {
-    std::string p = dir + "/probe.c3d"; c.write(p); std::string bytes; readAll(p, bytes);
+    std::string p = dir + "/probe.c3d"; freshDestination(p); c.write(p); std::string bytes; readAll(p, bytes);
     size_t data = 0; for (auto& f : c.data().frames()) { data += 16 * f.points().nbPoints(); for (auto& sf : f.analogs().subframes()) data += 4 * sf.nbChannels(); }
     return (bytes.size() - 512 - data) / 512;
 }
@@ -67,13 +70,25 @@ static std::string finishAndCheck(Build& b, const std::string& dir, std::string&
     Shape sh; for (long i = 0; i < b.nPoints; ++i) sh.pts.push_back("P" + std::to_string(i)); for (long i = 0; i < b.nChans; ++i) sh.chans.push_back("c" + std::to_string(i)); sh.nsub = b.nChans ? 1 : 0;
     Frame f0 = buildFrame(sh, 0), f1 = buildFrame(sh, 1);
     for (long f = 0; f < b.nFrames; ++f) b.c.frame((f % 2) ? f1 : f0);
+    if (b.wantSection && !b.wantBlocks) b.wantBlocks = 254;   // coarse fill first, then byte-exact tuning below
     if (b.wantBlocks) {   // grow the parameter section to exactly wantBlocks blocks: 60 000-byte fillers, then 480-byte ones
         int k = 0; size_t have = paramBlocksOf(b.c, dir);
         while ((long)have + 118 <= b.wantBlocks) { Param p("FILL" + std::to_string(k++)); std::vector<int> d(120 * 250, 7); p.set(d, {120, 250}); b.c.parameter("FILL", p); have = paramBlocksOf(b.c, dir); }
         while ((long)have < b.wantBlocks) { Param p("FILL" + std::to_string(k++)); std::vector<int> d(240, 9); p.set(d); b.c.parameter(k % 2 ? "FILL" : "FILL2", p); have = paramBlocksOf(b.c, dir); }
         if ((long)have != b.wantBlocks) { detail = "could not build exactly " + std::to_string(b.wantBlocks) + " blocks (have " + std::to_string(have) + ")"; return "harness:block_tuning"; }
     }
+    if (b.wantSection) {   // measured by the reference decoder on a save that still fits, then tuned with records of known size (14 bytes + description)
+        std::string pp = dir + "/probe.c3d"; freshDestination(pp); b.c.write(pp); std::string bytes; readAll(pp, bytes); ref::File F; std::string e = ref::decode(bytes, F);
+        if (!e.empty()) { detail = "probe does not decode: " + e; return "harness:section_tuning"; }
+        long have = (long)(F.termOffset - F.paramOffset), delta = b.wantSection - have; int k = 0;
+        if (delta < 14) { detail = "coarse fill already beyond the target"; return "harness:section_tuning"; }
+        auto add = [&](long desc) { Param p("TUNE" + std::to_string(k++), std::string((size_t)desc, 'u')); p.set(1); b.c.parameter("FILL", p); };
+        while (delta >= 2 * 14 + 255) { add(255); delta -= 14 + 255; }
+        if (delta > 14 + 255) { long half = delta / 2; add(half - 14); delta -= half; }
+        add(delta - 14);
+    }
     OSnap saved = snapObject(b.c); std::string p = dir + "/limit.c3d", what;
+    freshDestination(p);
     Outcome oc = guarded([&] { b.c.write(p); }, &what);
     if (oc != OK) { detail = what; return std::string("save_throws:") + outcomeName(oc); }
     std::unique_ptr<C3D> L; oc = guarded([&] { L.reset(new C3D(p)); }, &what);
@@ -235,7 +250,7 @@ static int runResidue(const std::string& tier, const std::string& scratch, const
     auto runOne = [&](const Case& cs, const std::string& dir, Sink& sink, size_t& secLen) {
         C3D c; residueBase(c, cs.base); int rest = cs.len, k = 0;
         while (rest > 0 || k == 0) { int n = std::min(rest, 255); Param p("F" + std::to_string(k), std::string((size_t)std::min(n, 100), 'd')); p.set(std::vector<std::string>() = {std::string((size_t)(n - std::min(n, 100)), 'v')}); c.parameter("FILLER", p); rest -= n; k++; if (cs.len == 0) break; }
-        WSnap s; s.o = snapObject(c); std::string p = dir + "/residue.c3d", what; Outcome oc = guarded([&] { c.write(p); }, &what);
+        WSnap s; s.o = snapObject(c); std::string p = dir + "/residue.c3d", what; freshDestination(p); Outcome oc = guarded([&] { c.write(p); }, &what);
         if (oc != OK) { V(sink, "C03", std::string("save_throws/") + outcomeName(oc), what); return; }
         std::string bytes; readAll(p, bytes); checkSavedFile(s.o, bytes, sink, true);
         ref::File F; if (ref::decode(bytes, F, false).empty()) secLen = F.termOffset - F.paramOffset;
